@@ -176,7 +176,10 @@ func C07(e *core.Env) {
 		"lessThanProperty": "ex.o", "lessThanOrEqualsToProperty": "ex.o / ex.a", "equalsToProperty": "ex.o | ex.a", "disjointWithProperty": "ex.o ^", "uniqueValues": true,
 		"nested": leafPC, "atLeast": map[string]any{"count": 2, "validation": leafPC}, "atMost": map[string]any{"count": 0, "validation": leafPC}}
 	shapes := map[string]string{"single": "ex.a", "sequence": "ex.a / ex.b / ex.c", "alternative": "ex.a | ex.b", "inverse": "ex.a ^", "inverse-seq": "ex.a ^ / ex.b",
-		"alt-in-seq-in-alt": "( ex.a / ( ex.b | ex.c ^ ) ) | ex.d", "type": "@type", "seq-then-type": "ex.a / @type", "grouped": "( ex.a | ex.b ) / ( ex.c | ex.d )"}
+		"alt-in-seq-in-alt": "( ex.a / ( ex.b | ex.c ^ ) ) | ex.d", "type": "@type", "seq-then-type": "ex.a / @type", "grouped": "( ex.a | ex.b ) / ( ex.c | ex.d )",
+		// custom (annotation) properties of the apiExt vocabulary, forward and inverse, in every position
+		"custom": "apiExt.wadus", "custom-inverse": "apiExt.wadus ^", "custom-second": "ex.a / apiExt.wadus", "custom-inverse-second": "ex.a ^ / apiExt.wadus ^ / ex.b",
+		"custom-inverse-last": "ex.a / apiExt.wadus ^", "custom-in-alt": "( ex.a | apiExt.wadus ^ ) / ex.b", "custom-after-alt": "( ex.a | ex.b ) / apiExt.wadus ^"}
 	knames := []string{}
 	for k := range kinds {
 		knames = append(knames, k)
